@@ -21,7 +21,7 @@ type applyCase struct {
 	RowNums  string        `json:"row_nums,omitempty"`
 }
 
-var c06VariantNames = append(append([]string{}, model.ShapeNames...), "aggregated", "selected", "copied", "zero-rows", "one-row", "one-row-of-a-sorted-frame", "70-rows", "70-rows-sparseperm", "runes-outside-the-basic-plane")
+var c06VariantNames = append(append([]string{}, model.ShapeNames...), "aggregated", "selected", "copied", "zero-rows", "one-row", "one-row-of-a-sorted-frame", "70-rows", "70-rows-sparseperm", "runes-outside-the-basic-plane", "40-rows-two-odd-rows")
 
 func c06Base() model.Frame {
 	N := model.Null()
@@ -65,7 +65,9 @@ func c06Variants() []c06Variant {
 		qframe.Aggregation{Fn: "sum", Column: "i"},
 		qframe.Aggregation{Fn: "sum", Column: "f"},
 		qframe.Aggregation{Fn: "majority", Column: "b"},
-		qframe.Aggregation{Fn: first, Column: "s"}))
+		qframe.Aggregation{Fn: first, Column: "s"},
+		// a count column under a name the instructions write to
+		qframe.Aggregation{Fn: "count", Column: "s", As: "n1"}))
 	add(q.Select("e", "s", "i", "f", "b"))
 	add(q.Copy("i2", "i").Copy("s", "s"))
 	add(model.Build(base.Rows(nil)))
@@ -83,6 +85,13 @@ func c06Variants() []c06Variant {
 		}
 	}
 	add(model.Build(uni))
+	// 40 rows, all but two of them alike: the FilteredApply clauses match (or miss) only one or two rows of many
+	odd := make([]int, 40)
+	for r := range odd {
+		odd[r] = []int{0, 3}[r%2]
+	}
+	odd[17], odd[30] = 2, 1
+	add(model.Build(base.Rows(odd)))
 	return c06vars
 }
 
